@@ -115,6 +115,7 @@ func init() {
 		"strconv.Itoa":       hItoa,
 		"strconv.Atoi":       hAtoi,
 		"strconv.ParseInt":   hParseInt,
+		"strconv.ParseUint":  hParseUint,
 		"strconv.ParseFloat": hParseFloat,
 		"strconv.ParseBool":  hParseBool,
 		"strings.Compare":    hStringsCompare,
@@ -869,6 +870,34 @@ func hParseInt(m *Machine, fr *frame, fn *ssa.Function, a []Value) Value {
 		return Tuple{n, Iface{}}
 	}
 	m.engineErr("strconv.ParseInt of unstructured symbolic string")
+	return nil
+}
+
+func hParseUint(m *Machine, fr *frame, fn *ssa.Function, a []Value) Value {
+	base := int(m.concretize(a[1].(T), true))
+	bits := int(m.concretize(a[2].(T), true))
+	if s, ok := a[0].(string); ok {
+		v, err := strconv.ParseUint(s, base, bits)
+		return Tuple{m.C.BVC(v, 64), m.hostErr(err)}
+	}
+	if n, ok := m.numeral(a[0]); ok && base == 10 {
+		// numeral of a 64-bit signed integer n: a leading '-' is a syntax error for ParseUint
+		c := m.C
+		if bits == 0 {
+			bits = 64
+		}
+		if m.branch(c.BvCmp(smt.OBvSlt, n, c.BVC(0, 64))) {
+			return Tuple{c.BVC(0, 64), m.makeError("strconv.ParseUint: invalid syntax")}
+		}
+		if bits < 64 {
+			hi := c.BVC((uint64(1)<<uint(bits))-1, 64)
+			if m.branch(c.BvCmp(smt.OBvUlt, hi, n)) {
+				return Tuple{hi, m.makeError("strconv.ParseUint: value out of range")}
+			}
+		}
+		return Tuple{n, Iface{}}
+	}
+	m.engineErr("strconv.ParseUint of unstructured symbolic string")
 	return nil
 }
 
